@@ -936,7 +936,16 @@ class GAM(Core, MetaTermMixin):
         self.statistics_['m_features'] = X.shape[1]
 
         # optimize
-        self._pirls(X, y, weights)
+        warm_start = self._is_fitted
+        try:
+            self._pirls(X, y, weights)
+        except ValueError:
+            if not warm_start:
+                raise
+            # coefficients left over from a previous fit (or handed over by gridsearch) were a
+            # bad starting point for these data: the outcome of fit must not depend on them
+            del self.coef_
+            self._pirls(X, y, weights)
         # if self._opt == 0:
         #     self._pirls(X, y, weights)
         # if self._opt == 1:
